@@ -177,7 +177,7 @@ def _c07_extra(o, driver, rng):
         o.suites.append(sp.run_suite(driver, sw.suite_cycles(rng, o.tier)))
 
 
-PROPERTIES["C07"] = {"run": _sched(_mon("C07"), extra=_c07_extra), "assumptions": SCHED_ASSUME + ["the run form (promise_run) is a theorem for continuations in which the simulator itself causes nothing inside the window; the finer clause (a step inside the window caused by an own output or self-schedule lies at or after it) is decided by the taint monitor"]}
+PROPERTIES["C07"] = {"run": _sched(_mon("C07"), extra=_c07_extra), "assumptions": SCHED_ASSUME + ["the run form is a theorem for every continuation (promise_run_traceable): steps inside the window are traceable to the simulator's own returned next steps and outputs; the taint monitor evaluates the same notion on the implementation traces"]}
 def _c09_loops(o, driver, rng):
     """Dedicated loop scenarios: loops of length around the bound, nested groups, several bound values."""
     import sched_corr as scorr
